@@ -48,3 +48,92 @@ class Unionfind__find(Contract):
 
     def raises(self, x):
         return {'KeyError': x not in self._parent}
+
+
+class Unionfind_find(Contract):
+    target = 'fpy2.utils.unionfind:Unionfind.find'
+    params = {'self': 'Unionfind', 'x': 'Key[Elem]'}
+    overrides = {'self._parent': 'dict[Key[Elem], Key[Elem]]', 'self._sets': 'dict[Key[Elem], set[Key[Elem]]]'}
+    returns = 'Key[Elem]'
+    properties = ['C13']
+    modifies = ['self._parent']
+    options = {'feas_ms': 150}
+
+    def pre(self, x):
+        return named('wf_', uf_wf(self._parent, uf_root, uf_rank))
+
+    def post(self, x, result, old):
+        out = named('wf_', uf_wf(self._parent, uf_root, uf_rank))
+        out.update({
+            'representative': result == uf_root(x),
+            'dom': uf_same_dom(self._parent, old.self._parent),
+        })
+        return out
+
+    def raises(self, x):
+        return {'KeyError': x not in self._parent}
+
+
+def uf_union_root(x, y):
+    """the view after union(x, y): the class of y is renamed to the representative of x, the rest is left"""
+    return lambda k: ite(uf_root(k) == uf_root(y), uf_root(x), uf_root(k))
+
+
+def uf_union_rank(x, y):
+    """ranks after union(x, y): the class of y moves below the representative of x"""
+    return lambda k: ite(uf_root(k) == uf_root(y) and uf_root(x) != uf_root(y), uf_rank(k) + uf_rank(uf_root(x)) + 1, uf_rank(k))
+
+
+class Unionfind__union(Contract):
+    target = 'fpy2.utils.unionfind:Unionfind._union'
+    params = {'self': 'Unionfind', 'x': 'Key[Elem]', 'y': 'Key[Elem]'}
+    overrides = {'self._parent': 'dict[Key[Elem], Key[Elem]]', 'self._sets': 'dict[Key[Elem], set[Key[Elem]]]'}
+    returns = 'Key[Elem]'
+    properties = ['C13']
+    modifies = ['self._parent', 'self._sets']
+    options = {'feas_ms': 150}
+
+    def pre(self, x, y):
+        out = named('wf_', uf_wf(self._parent, uf_root, uf_rank))
+        out.update(uf_sets_ok(self._sets, self._parent, uf_root))
+        return out
+
+    def post(self, x, y, result, old):
+        # whole-view postcondition: the new state realises the view in which exactly the classes of x and y are merged
+        out = named('wf_', uf_wf(self._parent, uf_union_root(x, y), uf_union_rank(x, y)))
+        out.update(uf_sets_ok(self._sets, self._parent, uf_union_root(x, y)))
+        out.update({
+            'representative': result == uf_root(x),
+            'dom': uf_same_dom(self._parent, old.self._parent),
+        })
+        return out
+
+    def raises(self, x, y):
+        return {'KeyError': (x not in self._parent) or (y not in self._parent)}
+
+
+class Unionfind_union(Contract):
+    target = 'fpy2.utils.unionfind:Unionfind.union'
+    params = {'self': 'Unionfind', 'x': 'Key[Elem]', 'y': 'Key[Elem]'}
+    overrides = {'self._parent': 'dict[Key[Elem], Key[Elem]]', 'self._sets': 'dict[Key[Elem], set[Key[Elem]]]'}
+    returns = 'Key[Elem]'
+    properties = ['C13']
+    modifies = ['self._parent', 'self._sets']
+    options = {'feas_ms': 150}
+
+    def pre(self, x, y):
+        out = named('wf_', uf_wf(self._parent, uf_root, uf_rank))
+        out.update(uf_sets_ok(self._sets, self._parent, uf_root))
+        return out
+
+    def post(self, x, y, result, old):
+        out = named('wf_', uf_wf(self._parent, uf_union_root(x, y), uf_union_rank(x, y)))
+        out.update(uf_sets_ok(self._sets, self._parent, uf_union_root(x, y)))
+        out.update({
+            'representative': result == uf_root(x),
+            'dom': uf_same_dom(self._parent, old.self._parent),
+        })
+        return out
+
+    def raises(self, x, y):
+        return {'KeyError': (x not in self._parent) or (y not in self._parent)}
